@@ -202,7 +202,7 @@ def run_tlc(module, cfg, workers=None, timeout=900, extra=(), defines=None, sink
                 f.write("%s == %s\n" % (k, v))
             f.write("====\n")
     workers = workers or NCPU
-    cmd = ["java", "-XX:+UseParallelGC", "-Xmx" + heap, "-Xss" + stack, "-cp", TLC_JAR, "tlc2.TLC",
+    cmd = ["java", "-XX:+UseParallelGC", "-Xmx" + heap, "-Xss" + stack, "-Djava.io.tmpdir=" + d, "-cp", TLC_JAR, "tlc2.TLC",
            "-workers", str(workers), "-metadir", os.path.join(d, "meta"), "-config", cfg, "-noGenerateSpecTE"]
     if simulate:
         cmd += ["-simulate", "num=%d" % simulate]
@@ -279,7 +279,7 @@ def sany(module):
             shutil.copy(os.path.join(specdir, f), d)
     if not os.path.exists(os.path.join(d, "VerifParams.tla")):
         pass
-    p = subprocess.run(["java", "-cp", TLC_JAR, "tla2sany.SANY", module], cwd=d, capture_output=True, text=True)
+    p = subprocess.run(["java", "-Djava.io.tmpdir=" + d, "-cp", TLC_JAR, "tla2sany.SANY", module], cwd=d, capture_output=True, text=True)
     shutil.rmtree(d, ignore_errors=True)
     return p.returncode == 0 and "Semantic errors" not in p.stdout and "*** Errors" not in p.stdout, p.stdout + p.stderr
 
